@@ -86,10 +86,10 @@ func c09Current() *c09Obs {
 }
 
 type c09Env struct {
-	mux     [4]*larking.Mux
+	mux     [5]*larking.Mux // 0..3: the rich mux in its option combinations; 4: a mux on which nothing was ever registered
 	methods map[string]bool // "/pkg.Svc/Method" registered
 	rules   []string        // "VERB template body" of every rule, for the record
-	loop    [4]*c09Loop
+	loop    [5]*c09Loop
 	fdDyn   protoreflect.FileDescriptor
 }
 
@@ -369,6 +369,9 @@ func c09Setup() *c09Env {
 		}
 		e.mux[cfg] = m
 	}
+	if e.mux[4], err = larking.NewMux(); err != nil {
+		panic(err)
+	}
 	// history: a proxied backend (grpc-go health service + reflection) is registered on every mux and
 	// dropped again; its methods must then be unknown methods, not a crash
 	bsrv := grpc.NewServer()
@@ -563,7 +566,7 @@ func c09Exec(c c09Case) string {
 	c09curMu.Lock()
 	c09cur = obs
 	c09curMu.Unlock()
-	known := b2i(e.methods[c.path])
+	known := b2i(e.methods[c.path] && c.cfg < 4)
 	if c.via == "loop" {
 		return c09ExecLoop(e, c, obs, known)
 	}
@@ -1436,6 +1439,23 @@ func c09GenAll(o *out, r *rng, tier string) {
 			}
 		}
 	}
+	// ... and on a mux that has no service yet (a proxy before its first backend is there): every method is unknown
+	for _, b := range c09HTTPBase[:6] {
+		c := c09Case{cfg: 4, via: "rec", major: 1, method: b.method, path: b.path, query: b.query, cl: "a", body: g.resolveBody(b.body)}
+		if b.ct != "" {
+			c.hdr = append(c.hdr, [2]string{"Content-Type", b.ct})
+		}
+		g.emitCase(c, "empty-mux")
+	}
+	for _, m := range c09GrpcMethods[:4] {
+		for web := 0; web < 3; web++ {
+			c := g.grpcCase(web)
+			c.cfg, c.path = 4, m
+			g.emitCase(c, "empty-mux")
+		}
+	}
+	c := c09Case{cfg: 4, via: "loop", major: 1, method: "GET", path: c09WSPaths[0], cl: "a"}
+	g.emitCase(c, "empty-mux")
 	g.sweeps()
 	// 1. transcoding path, mutated
 	for i := 0; i < 2600*scale; i++ {
